@@ -1066,7 +1066,12 @@ def slice_to_inclusive_slice(
     '''Make a stop exclusive key inclusive by adding one to the stop value.
     '''
     start = None if key.start is None else key.start + offset
-    stop = None if key.stop is None else key.stop + 1 + offset
+    if key.stop is None:
+        stop = None
+    elif key.step is None or key.step > 0:
+        stop = key.stop + 1 + offset
+    else: # walking down: one position lower; position -1 does not exist
+        stop = None if key.stop - 1 + offset < 0 else key.stop - 1 + offset
     return slice(start, stop, key.step)
 
 
